@@ -28,7 +28,7 @@ ALPHABET = [b"only_root", b"only_uid:1000,65534", b"exclude_uid:0", b"exclude_ui
 UIDS = [0, 1000, 65534]
 
 
-def scenario(out, chain, uid, tty, errmode=False):
+def scenario(out, chain, uid, tty, errmode=False, pre_errno=0):
     opts = [(b"output", b"file:" + out.encode() + b"/log"), (b"message_format", b"REC %{cmdline}"), (b"filter_chain", chain)]
     if errmode:
         # error logging on and a message that does not fit: a DROPPED call must still be silent
@@ -39,13 +39,14 @@ def scenario(out, chain, uid, tty, errmode=False):
     ops.append(drv.op("S", 0, "pty" if tty else "pipein"))
     if uid != 0:
         ops.append(drv.op("U", -1, -1, -1, uid, uid if uid != 1000 else 0, -1))   # real uid set, effective differs for 1000
-    ops += [drv.op("Q"), drv.op_exec("e", b"/bin/x", [b"x", b"y"], [b"K=v"], ret=-1, err=2), drv.op("L"), drv.op("G")]
+    # the caller's errno is an input too: whatever it holds when exec is called must not influence the decision
+    ops += [drv.op("Q"), drv.op("e", pre_errno), drv.op_exec("e", b"/bin/x", [b"x", b"y"], [b"K=v"], ret=-1, err=2), drv.op("L"), drv.op("G")]
     return ops, ini
 
 
-def run_chain(d, chain, uid, tty, errmode=False):
+def run_chain(d, chain, uid, tty, errmode=False, pre_errno=0):
     """-> (logged: bool)  raises Failure on any other violation."""
-    ops, ini = scenario(d.out, chain, uid, tty, errmode)
+    ops, ini = scenario(d.out, chain, uid, tty, errmode, pre_errno)
     if any(len(l) > 1022 for l in ini.split(b"\n")):
         return None
     res = d.scenario(ops)
@@ -118,7 +119,8 @@ def strategy():
                 dup.insert(draw(st.integers(0, len(dup))), els[i])
         trailing = draw(st.sampled_from([b"", b"", b";", b";;"]))
         return {"els": els, "perm": perm, "dup": dup, "trailing": trailing, "uid": draw(st.sampled_from(UIDS)),
-                "tty": draw(st.booleans()), "errmode": draw(st.sampled_from([False, False, False, True]))}
+                "tty": draw(st.booleans()), "errmode": draw(st.sampled_from([False, False, False, True])),
+                "pre_errno": draw(st.sampled_from([0, 0, 34, 4, 2, 11, 22, 75]))}
     return case()
 
 
@@ -126,12 +128,13 @@ def evaluate(env, c):
     d = env.driver("ts-asan")
     base = b";".join(c["els"]) + c["trailing"]
     em = c.get("errmode", False)
-    r0 = run_chain(d, base, c["uid"], c["tty"], em)
+    pe = c.get("pre_errno", 0)
+    r0 = run_chain(d, base, c["uid"], c["tty"], em, pe)
     if r0 is None:
         return
     for name in ("perm", "dup"):
         ch = b";".join(c[name])
-        r = run_chain(d, ch, c["uid"], c["tty"], em)
+        r = run_chain(d, ch, c["uid"], c["tty"], em, pe)
         if r is not None and r != r0:
             # cannot happen if both agree with the model, kept as an independent metamorphic oracle
             raise Failure("decision changed under %s of the chain elements" % name, {"chain": base, "variant": ch}, key="metamorphic")
@@ -191,7 +194,7 @@ def exhaustive_worker(args):
                     local.count(("ex",) + (key or ("t", chain, uid, tty)) if key else None, ["exhaustive"] + cls,
                                 sample={"chain": chain, "uid": uid, "stdin_tty": tty})
                     try:
-                        run_chain(d, chain, uid, tty)
+                        run_chain(d, chain, uid, tty, False, 34 if n % 3 == 0 else 0)
                     except Failure as f:
                         if len(fails) < 1:
                             fails.append({"case": {"els": c["els"], "perm": c["els"], "dup": c["els"], "trailing": b"",
